@@ -195,6 +195,13 @@ func zzSortings() []zzSortSpec {
 				}
 				return a.cport < b.cport
 			}},
+		{[]query.Sorting{{Key: query.SortingKeyLastPacketTime, Dir: query.SortingDirDescending}, {Key: query.SortingKeyClientPort, Dir: query.SortingDirDescending}},
+			func(a, b zzDesc) bool {
+				if a.last != b.last {
+					return a.last > b.last
+				}
+				return a.cport > b.cport
+			}},
 	}
 }
 
